@@ -91,7 +91,14 @@ def run(ctx):
         cases = []
         for i in range(n):
             inst = gen_install(rng)
-            svcfile = rng.choice(["web.service", "web.service", "tpl@.service", "tpl@one.service", "a b.service", "web@@home.service", "u@a@b.service", "@x.service"])
+            svcfile = rng.choice(["web.service", "web.service", "tpl@.service", "tpl@.service", "tpl@one.service", "a b.service", "web@@home.service", "u@a@b.service", "@x.service"])
+            if svcfile == "tpl@.service" and rng.random() < 0.6:
+                # a template without instance: its WantedBy / RequiredBy links carry the DefaultInstance name (both kinds of link, the same name)
+                inst = [e for e in inst if e[0] != "DefaultInstance"] + [("DefaultInstance", rng.choice(["main", "inst", "a-b"]))]
+                if not any(k == "RequiredBy" for k, _ in inst):
+                    inst.append(("RequiredBy", rng.choice(["frontend.target", "x.service multi-user.target"])))
+                if not any(k == "WantedBy" for k, _ in inst) and rng.random() < 0.5:
+                    inst.append(("WantedBy", "default.target"))
             d = os.path.join(root, str(i))
             os.makedirs(os.path.join(d, "out"))
             os.makedirs(os.path.join(d, "ABS", "sub"))
